@@ -144,6 +144,28 @@ def run(tier, replay=None):
     if not ok:
         report.violation({"kind": "broken-obligation", "obligation": "model Run/C03Run.vo does not build against the regenerated catalogue", "detail": log[-1500:], "also": proof.get("broken")}, False, tag="modelbuild")
         return report.finish()
+    # search: which catalogue entry breaks which consistency rule (names the concrete function when the table theorem no longer checks)
+    ok2, out = common.coq_eval("c03_facts", "From SG Require Import Base.Prelude Model.Functions Proofs.CatalogueProofs Gen.Catalogue.\n",
+                               "Eval vm_compute in (unique_sf catalogue, all_parse catalogue, classes_eq_yaml, pairing_ok catalogue,\n"
+                               "  map f_name (filter (fun e => negb (length (filter (same_sf (f_stream e) (f_function e)) catalogue) =? 1)%nat) catalogue),\n"
+                               "  map f_name (filter (fun e => negb (is_ok (fn_structure e))) catalogue),\n"
+                               "  map f_name (filter (fun e => match find_sf yaml_catalogue (f_stream e) (f_function e) with Some y => negb (agree e y) | None => true end) catalogue),\n"
+                               "  map f_name (filter (fun y => match find_sf catalogue (f_stream y) (f_function y) with Some _ => false | None => true end) yaml_catalogue),\n"
+                               "  pairing_exceptions catalogue, length catalogue).")
+    import re
+    flat = " ".join(out.split())
+    m = re.search(r"= \((true|false), (true|false), (true|false), (true|false), (\[.*?\]), (\[.*?\]), (\[.*?\]), (\[.*?\]), (\[.*?\]), (\d+)", flat) if ok2 else None
+    if m:
+        names = lambda t: re.findall(r'"([^"]+)"', t)  # noqa: E731
+        facts = {"duplicate_stream_function": names(m.group(5)), "structure_not_accepted": names(m.group(6)), "class_differs_from_yaml": names(m.group(7)),
+                 "in_yaml_but_not_a_class": names(m.group(8)), "pairing_or_reply_flag": names(m.group(9))}
+        report.coverage["catalogue_search"] = {"entries": int(m.group(10)), **{k: v for k, v in facts.items()}}
+        for rule, offenders in facts.items():
+            if offenders:
+                report.violation({"kind": "counterexample", "what": f"catalogue consistency rule '{rule}' fails", "functions": offenders,
+                                  "broken_obligation": proof.get("broken")}, True, tag=rule)
+        if any(facts.values()):
+            return report.finish()
     rnd = common.rng("c03")
     cases = gen_cases(rnd, tier)
     obs, bad, stats = evaluate(cases, "c03")
